@@ -22,7 +22,24 @@ last crash), the same state payload, the same call-back log and leave the numpy 
 (length == transitions, call-back exactly once per transition with (state, index), copies taken at
 call time == finally stored entries).
 
-*Stateless interface* (cuqi.sampler): sample(N, Nb) for the full grid {1..4}x{0..3}, sample_adapt(N, Nb)
+*Re-initialisation after every kind of use*: besides RI, in every stateful cell ONE sampler object is used in each way of
+REINIT_USES (initialize only, warmup, sample, sample then warmup, set_state / load_checkpoint of a payload produced by
+another run - each with and without a following transition -, reinitialize then sample), then reinitialize()d and run on
+the reference stream: it must reproduce the uninterrupted run of the freshly constructed sampler (chain, state dictionary,
+call-back log, generator position).  In every HybridGibbs cell the block sampler objects handed to HybridGibbs (they remain
+the user's objects) are, after Gibbs runs of three lengths, each reinitialize()d and run stand-alone (warmup(2);sample(2) on
+their last conditional target) against a freshly constructed twin (same constructor arguments, same target, same stream):
+same chain, same state dictionary, same generator position.
+
+*Chain length x dimension product* (record cells): for HybridGibbs every total number of recorded states
+T in 1..max(block dimension)+2 (so T == dim, dim-1, dim+1 occur for every block dimension present), reached by warmup(kw),
+kw in {0,1,2}, followed by single sample(1) calls, and by one call sample(T): get_samples() must list, per parameter,
+exactly the states that `current_samples` showed after each transition (copied by the harness at production time), one
+column per state.  Single stateful samplers: T in 1..dim+2 x kw in {0,1,2}: get_samples() == the states handed to the
+call-back, last one == current_point.  In all HybridGibbs histories the last recorded state must be the state the sampler
+is in.  Legacy Gibbs: sample(N, Nb), N in 1..dim+2, is one column per state and the prefix of sample(N+1, Nb).
+
+*Stateless interface* (cuqi.sampler): sample(N, Nb) for the full grid {1..5}x{0..3}, sample_adapt(N, Nb)
 for {10,12}x{0,2,5}; legacy Gibbs and HybridGibbs: N then M, warm-up, immutability of returned chains.  The HybridGibbs
 set-ups together use every sampler class of cuqi.experimental.mcmc as a block sampler.
 
@@ -53,7 +70,12 @@ RULE = ("stateful cells = sampler set-up x target x warm-up length k x generator
         "stateless cells = sampler x seed with the full (N,Nb) grid inside; Gibbs cells = all (N,M,Nb) splits (chain and "
         "generator position), the HybridGibbs set-ups covering every sampler class as block sampler; in every cell the "
         "chain recorded by the longest uninterrupted run goes through the full burnthin(Nb,Nt) product against the "
-        "slice model stored[Nb::Nt]. "
+        "slice model stored[Nb::Nt]; "
+        "re-initialisation: one sampler object x every kind of previous use (stand-alone uses incl. set_state/load_checkpoint, "
+        "and use as a block inside HybridGibbs) -> reinitialize() -> same run as a freshly constructed twin on the same "
+        "stream; record cells = set-up x generator seed with the product (total number of recorded states T in 1..dim+2) x "
+        "(warm-up 0,1,2) x (single calls / one call) inside: get_samples() state by state against the states the harness "
+        "copied from current_samples / the call-back when they were produced. "
         "A cell is non-trivial when the reference chain moves (at least two distinct states) and at least one "
         "history with a crash point was compared")
 BOUND = {
@@ -65,9 +87,15 @@ BOUND = {
              "classes in 11 set-ups, sample(N,Nb) on "
              "{1..4}x{0..3}, sample_adapt on {10,12}x{0,2,5}; legacy Gibbs: 2 set-ups, all call sequences with parts "
              "1..3 and total <=4, warm-up 0..2 in the first call; burnthin: Nb in 0..len, Nt in 1..4, 2 call styles, on "
-             "chains of 4-7 (stateful, HybridGibbs), 8 and 12 (stateless), 4 (legacy Gibbs) states",
+             "chains of 4-7 (stateful, HybridGibbs), 8 and 12 (stateless), 4 (legacy Gibbs) states; "
+             "reinitialize after 9 kinds of stand-alone use per stateful cell, and of every block sampler object (all 12 "
+             "classes) after Gibbs runs warmup(k);sample(1), warmup(k);sample(4), warmup(k+1) per HybridGibbs cell; "
+             "record cells: 8 HybridGibbs set-ups (block dimensions 1,2,3; T in 1..max dim+2, warm-up 0..2, stepwise and "
+             "in one call) and 20 stateful set-ups (T in 1..dim+2, warm-up 0..2), 1 generator seed; stateless sample(N,Nb) "
+             "grid now N in 1..5; legacy Gibbs shape/prefix for N in 1..4 (= dim+2)",
     "thorough": "as quick with k in {0,1,2,3}, 3 generator seeds, <=5 sampling transitions (2269 histories per stateful "
-                "cell, 293 per HybridGibbs cell, +76 with one sample(0)), legacy Gibbs total <=5",
+                "cell, 293 per HybridGibbs cell, +76 with one sample(0)), legacy Gibbs total <=5; block samplers "
+                "re-initialised after Gibbs runs warmup(k);sample(1|5), warmup(k+1); record cells with 3 generator seeds",
 }
 ASSUMPTIONS = [
     "the oracle is differential: the uninterrupted run of the same sampler on the same stream (the kernels themselves "
@@ -90,7 +118,18 @@ ASSUMPTIONS = [
     "oracle is the slice stored[Nb::Nt] of the states recorded at production time; a raise is accepted when that "
     "slice is empty (Nb >= length); statistics of Samples are the subject of C19",
     "HybridGibbs and legacy Gibbs offer no check-point, call-back or reinitialize API: only continuity, warm-up, "
-    "length, stream consumption, burn-in/thinning and immutability are decided for them",
+    "length, stream consumption, burn-in/thinning, immutability and the recorded chain against the states seen at "
+    "production are decided for them",
+    "HybridGibbs has no call-back: the harness records its states by copying the public attribute current_samples "
+    "after warmup(kw) and after every sample(1) call (warm-up states before the last are not observable and not "
+    "compared); the one-call run sample(T) is compared with that record through the continuity clause; legacy Gibbs "
+    "exposes no current state: its record is decided through shape and the prefix relation sample(N) < sample(N+1)",
+    "a chain of scalar states may be handed out as a flat array of length T (no shape is claimed by the statement)",
+    "'the configuration it was constructed with' is decided behaviourally: the re-initialised object and a freshly "
+    "constructed sampler with the same constructor arguments and the same target make the same run on the same "
+    "stream (chain, state dictionary, generator position); a block sampler object keeps the last conditional target "
+    "HybridGibbs assigned to it (the target is not a constructor argument of the block samplers), the twin is given "
+    "that same target object; the 'use' before reinitialize() runs on a different stream position than the compared run",
 ]
 
 RTOL = 1e-10
